@@ -360,6 +360,11 @@ impl Function for AvgFn {
             )
         })?;
 
+        // The average of no values is null (0.0 / 0 is NaN, which is not a number).
+        if values.is_empty() {
+            return Ok(Rcvar::new(Variable::Null));
+        }
+
         let mut sum = 0.0;
 
         for value in values {
